@@ -159,8 +159,7 @@ def root(r, b, signs=None):
     """Positive b-th root (b a positive integer) of a non-negative r.
     Monomial factors in positive variables are split off:
     root(v**e * A, b) = v**(e // b) * root(v**(e % b), b) * root(A, b)."""
-    from .npmodel import sqrt_rat
-    r = ired(r)
+    r = reduce_full(r)
     if b == 1:
         return r
     if r.is_const():
@@ -330,6 +329,11 @@ def equal_pos(a, b, witness=None):
     for k in sorted(cands):
         if k > 12:
             continue
+        # size guard: the k-th power of an s-term sum has up to
+        # C(s + k - 1, k) terms
+        if max(_power_size(a, k), _power_size(b, k)) > 200000:
+            raise Undecided('equality proof too large (power %d of %d / '
+                            '%d terms)' % (k, len(a.n.t), len(b.n.t)))
         if is_zero(a ** k - b ** k):
             # a^k = b^k and a, b >= 0  =>  a = b; cross-check the sign
             # premise numerically
@@ -340,6 +344,11 @@ def equal_pos(a, b, witness=None):
                         return False
             return True
     return False
+
+
+def _power_size(r, k):
+    s_ = max(len(r.n.t), len(r.d.t), 1)
+    return math.comb(s_ + k - 1, k)
 
 
 def equal_exact(a, b, witness=None):
@@ -372,13 +381,11 @@ def num_eval(r, env, want_complex=False):
             if k in ('max', 'min'):
                 vals = [ev(z).real for z in v[1]]
                 return max(vals) if k == 'max' else min(vals)
+            if k == 'norm':
+                return env['norm:%s' % (v[1],)]
             raise Undecided('no numeric value for atom %r' % (v,))
         if v == 'I':
             return 1j
-        if v not in env:
-            import zlib
-            h = (zlib.crc32(str(v).encode()) % 997) / 997.0
-            env[v] = 0.3 + h
         return env[v]
 
     def evp(p):
